@@ -17,7 +17,7 @@ ASSUMPTIONS = [
 CHUNK = 2000
 PD = ["current", "first", "last"]
 FORMS_MY = ["Month YYYY", "Mon YYYY", "MM/YYYY", "YYYY-MM", "Month, YYYY"]
-FORMS_FULL = ["D Month YYYY", "YYYY-MM-DD", "Mon D, YYYY", "YYYY-MM-DD HH:MM"]
+FORMS_FULL = ["D Month YYYY", "YYYY-MM-DD", "Mon D, YYYY", "YYYY-MM-DD HH:MM", "YYYY DDD"]
 
 
 def _bases():
@@ -44,7 +44,8 @@ def render(form, y, m, d=None):
         "MM/YYYY": lambda: "%02d/%s" % (m, Y), "YYYY-MM": lambda: "%s-%02d" % (Y, m),
         "Month, YYYY": lambda: "%s, %s" % (mon, Y), "YYYY": lambda: Y,
         "D Month YYYY": lambda: "%d %s %s" % (d, mon, Y), "YYYY-MM-DD": lambda: "%s-%02d-%02d" % (Y, m, d),
-        "Mon D, YYYY": lambda: "%s %d, %s" % (mon[:3], d, Y), "YYYY-MM-DD HH:MM": lambda: "%s-%02d-%02d 10:30" % (Y, m, d),
+        "Mon D, YYYY": lambda: "%s %d, %s" % (mon[:3], d, Y),
+        "YYYY DDD": lambda: "%s %03d" % (Y, cal.ordinal(y, m, d) - cal.ordinal(y, 1, 1) + 1), "YYYY-MM-DD HH:MM": lambda: "%s-%02d-%02d 10:30" % (Y, m, d),
     }[form]()
 
 
@@ -59,11 +60,11 @@ def spaces(tier, seed):
     sp.append(Product("year-only", {"y": YEARS + [1000, 1530, 2359, 1960, 99], "m": [0], "form": ["YYYY"], "pd": PD, "pm": PD,
                                     "base": range(len(BASES)), "parser": ["absolute"]}))
     sp.append(Product("full-dates-unaltered", {"y": [4, 1900, 2000, 2023, 2024], "m": range(1, 13), "d": [1, 15, 28, 29, 30, 31],
-                                               "form": FORMS_FULL, "pd": PD, "pm": PD, "base": [0, 1, 7, 23], "parser": ["absolute"],
+                                               "form": FORMS_FULL[:4], "pd": PD, "pm": PD, "base": [0, 1, 7, 23], "parser": ["absolute"],
                                                "rtp": [False, True]}))
     sp.append(Product("custom-formats", {"y": YEARS, "m": range(1, 13), "form": ["MM/YYYY", "Month YYYY", "Mon YYYY", "YYYY"],
                                          "pd": ["first", "last"], "pm": ["first", "last"], "base": [0, 9], "parser": ["custom"]}))
-    sp.append(Product("custom-full-unaltered", {"y": [1900, 2024], "m": range(1, 13), "d": [1, 28, 29, 30, 31], "form": ["YYYY-MM-DD"],
+    sp.append(Product("custom-full-unaltered", {"y": [1900, 2024], "m": range(1, 13), "d": [1, 28, 29, 30, 31], "form": ["YYYY-MM-DD", "YYYY DDD"],
                                                 "pd": ["first", "last"], "pm": ["first", "last"], "base": [0], "parser": ["custom"]}))
     if T:
         sp.append(Product("all-bases", {"y": [1900, 2000, 2023, 2024], "m": range(1, 13), "form": ["Month YYYY", "MM/YYYY"], "pd": PD, "pm": PD,
@@ -79,7 +80,7 @@ def spaces(tier, seed):
     return sp
 
 
-CFMT = {"MM/YYYY": "%m/%Y", "Month YYYY": "%B %Y", "Mon YYYY": "%b %Y", "YYYY": "%Y", "YYYY-MM-DD": "%Y-%m-%d"}
+CFMT = {"MM/YYYY": "%m/%Y", "Month YYYY": "%B %Y", "Mon YYYY": "%b %Y", "YYYY": "%Y", "YYYY-MM-DD": "%Y-%m-%d", "YYYY DDD": "%Y %j"}
 
 
 def expected(c, base):
